@@ -36,14 +36,27 @@ class Undecided(Exception):
 
 # --------------------------------------------------------------------------- extraction
 
-def run_extract(unit, repo=None):
+def run_extract(unit, repo=None, use_known=True):
     repo = repo or REPO
     udir = os.path.join(UNITS, unit)
+    # R35: the function names of the pinned extraction; a method of a wholly selected impl that is not among them is a helper split
+    # off later and is inlined at its call sites (not passed when base.rs itself is being generated)
+    known_args = []
+    known_path = None
+    base_path = os.path.join(udir, "base.rs")
+    if use_known and os.path.exists(base_path):
+        names = sorted(set(re.findall(r"\bfn\s+([A-Za-z_][A-Za-z0-9_]*)", open(base_path).read())))
+        fdk, known_path = tempfile.mkstemp(prefix=f"vknown_{unit}_", suffix=".txt")
+        os.write(fdk, "\n".join(names).encode())
+        os.close(fdk)
+        known_args = ["--known", known_path]
     # one log file per call: obligations of the same unit run concurrently in threads of one process
     fd, log_path = tempfile.mkstemp(prefix=f"vextract_{unit}_", suffix=".json")
     os.close(fd)
-    p = subprocess.run([EXTRACT, repo, os.path.join(udir, "unit.toml"), "--log", log_path],
+    p = subprocess.run([EXTRACT, repo, os.path.join(udir, "unit.toml"), "--log", log_path] + known_args,
                        capture_output=True, text=True)
+    if known_path and os.path.exists(known_path):
+        os.unlink(known_path)
     if p.returncode != 0:
         if os.path.exists(log_path):
             os.unlink(log_path)
